@@ -207,7 +207,7 @@ def main(argv=None):
         for o in r["obligations"]:
             # a contract may contribute only some of its clauses to a property (e.g. the effect clause of an array
             # operation to C16); its other clauses are decided under the properties they belong to
-            if only_ob is not None and not any(o["name"].startswith(px) for px in only_ob):
+            if only_ob is not None and not any(px in o["name"] for px in only_ob):
                 continue
             n_ob += 1
             backends[o["backend"]] = backends.get(o["backend"], 0) + 1
